@@ -102,7 +102,7 @@ Definition chk_moseq (c : moseq_case) : bool :=
 """
 
 KINDS = ["hb_stopping", "hb_promotion", "hb_pasha", "hb_rush_stopping", "hb_rush_promotion",
-         "sync_hb", "median", "pbt", "fifo", "dehb", "rea", "moasha", "morea"]
+         "sync_hb", "median", "pbt", "fifo", "dehb", "rea", "moasha", "morea", "tl_rush_stopping", "tl_rush_promotion"]
 
 # rung levels whose promotion quantiles level/next level never put a rung entry exactly on the quantile
 # ((n-1) * q is not an integer for any rung size n reachable here): no decision threshold coincides with a metric value
@@ -138,7 +138,16 @@ def make_time_keeper():
 def gen_pair_spec(rng, kind):
     spec = dict(kind="pair", sched=kind, seed=rng.randint(0, 10 ** 6), script_seed=rng.randint(0, 10 ** 9),
                 workers=rng.randint(2, 6), table_seed=rng.randint(0, 10 ** 9))
-    if kind.startswith("hb_"):
+    if kind.startswith("tl_rush"):
+        # RUSHScheduler (transfer learning): offline evaluations of previous tasks with several seeds and crossing
+        # multi-fidelity curves decide the first suggestions and the RUSH thresholds
+        p = rng.choice(TIE_FREE)
+        ntasks = rng.randint(1, 3)
+        spec.update(rung_levels=list(p["rung_levels"]), max_t=p["max_t"], brackets=1, type=kind[8:],
+                    max_trials=rng.randint(3, TIE_FREE_MAX_TRIALS[p["max_t"]]), num_hp_per_task=rng.randint(1, 2),
+                    tasks=[dict(n=rng.randint(3, 6), seeds=rng.randint(1, 3), fid=rng.randint(2, 4), seed=rng.randint(0, 10 ** 6))
+                           for _ in range(ntasks)])
+    elif kind.startswith("hb_"):
         typ = kind[3:]
         tie_prone = typ in ("stopping", "rush_stopping") and rng.random() < 0.4
         if tie_prone:
@@ -229,11 +238,31 @@ def moasha_modes(spec, variant):
     return [flip(m) if f else m for m, f in zip(base, mask)]
 
 
+def tl_evaluations(spec, sign, cs):
+    """offline evaluations: per task n configurations x seeds x fidelities, independent uniform values (curves cross)"""
+    import pandas as pd
+    from syne_tune.optimizer.schedulers.transfer_learning import TransferLearningTaskEvaluations
+    out = {}
+    for j, t in enumerate(spec["tasks"]):
+        r = np.random.RandomState(t["seed"])
+        hps = pd.DataFrame([{"x": float(r.uniform(0, 1)), "k": int(r.randint(0, 21))} for _ in range(t["n"])])
+        vals = r.uniform(0.05, 1.0, size=(t["n"], t["seeds"], t["fid"], 1))
+        out["task%d" % j] = TransferLearningTaskEvaluations(configuration_space=cs, hyperparameters=hps,
+                                                            objectives_names=["m"], objectives_evaluations=sign * vals)
+    return out
+
+
 def build_scheduler(spec, variant):
     from syne_tune.config_space import uniform, randint, choice
     mode = "min" if variant == 0 else "max"
     cs = {"x": uniform(0, 1), "k": randint(0, 20)}
     kind = spec["sched"]
+    if kind.startswith("tl_rush"):
+        from syne_tune.optimizer.schedulers.transfer_learning import RUSHScheduler
+        return RUSHScheduler(config_space=cs, transfer_learning_evaluations=tl_evaluations(spec, 1.0 if variant == 0 else -1.0, cs),
+                             metric="m", mode=mode, type=spec["type"], num_hyperparameters_per_task=spec["num_hp_per_task"],
+                             resource_attr="epoch", max_t=spec["max_t"], rung_levels=list(spec["rung_levels"]),
+                             brackets=1, random_seed=spec["seed"], searcher="random")
     if kind == "dehb":
         from syne_tune.optimizer.schedulers.synchronous.hyperband_impl import GeometricDifferentialEvolutionHyperbandScheduler
         return GeometricDifferentialEvolutionHyperbandScheduler(
@@ -1052,6 +1081,175 @@ def pout_term(o):
     return "PODone"
 
 
+def unit_cases3(ctx, replay):
+    """top_k_hyperparameter_configurations (min on E versus max on -E) and real Tuner runs with MOASHA:
+    Tuner.best_config per metric index and name in the mirrored experiments"""
+    from syne_tune.config_space import uniform, randint
+    rng = ctx.rng
+    U.quiet()
+    cs = {"x": uniform(0, 1), "k": randint(0, 20)}
+    cases = []
+    if replay is None:
+        for _ in range(ctx.n(150, 2000)):
+            cases.append(dict(kind="topk", k=rng.randint(1, 4), mode=rng.choice(["min", "max"]),
+                              tasks=[dict(n=rng.randint(2, 7), seeds=rng.randint(1, 3), fid=rng.randint(1, 4), seed=rng.randint(0, 10 ** 6))]))
+    elif replay.get("kind") == "topk":
+        cases = [replay]
+    for c in cases:
+        ev = tl_evaluations(c, 1.0, cs)["task0"]
+        evn = tl_evaluations(c, -1.0, cs)["task0"]
+        a = ev.top_k_hyperparameter_configurations(c["k"], c["mode"], "m")
+        b = evn.top_k_hyperparameter_configurations(c["k"], flip(c["mode"]), "m")
+        # independent reference: mean over seeds, best fidelity, best first
+        vals = np.asarray(ev.objective_values("m")).mean(axis=1)
+        best = vals.min(axis=1) if c["mode"] == "min" else vals.max(axis=1)
+        order = sorted(range(len(best)), key=lambda i: best[i] if c["mode"] == "min" else -best[i])[:c["k"]]
+        want = ev.hyperparameters.loc[order].to_dict("records")
+        ctx.count(("topk", c), nontrivial=c["tasks"][0]["fid"] >= 2 and c["tasks"][0]["n"] >= 3)
+        ctx.h("unit_kind", "top_k_hyperparameter_configurations")
+        if a != b or a != want:
+            ctx.violation("property", "top_k_hyperparameter_configurations(k=%d, mode=%s) = %r; on negated evaluations with the other "
+                          "mode = %r; best-fidelity ranking = %r" % (c["k"], c["mode"], a, b, want), case=c,
+                          signature=dict(function="top_k_hyperparameter_configurations", defect="mode_asymmetry"))
+    # ---- real Tuner + MOASHA: Tuner.best_config ----
+    cases = []
+    if replay is None:
+        for _ in range(ctx.n(30, 400)):
+            nmet = rng.randint(2, 3)
+            base = [rng.choice(["min", "max"]) for _ in range(nmet)]
+            mask = [rng.random() < 0.6 for _ in range(nmet)]
+            if not any(mask):
+                mask[rng.randrange(nmet)] = True
+            cases.append(dict(kind="tuner", sched="moasha", nmet=nmet, base_modes=base, mask=mask, max_t=9, grace_period=1,
+                              reduction_factor=3, brackets=rng.randint(1, 2), seed=rng.randint(0, 10 ** 6),
+                              table_seed=rng.randint(0, 10 ** 9), n_workers=rng.randint(1, 3), max_results=rng.randint(10, 60)))
+    elif replay.get("kind") == "tuner":
+        cases = [replay]
+    for c in cases:
+        try:
+            with U.watchdog(120):
+                outs = [run_tuner(c, 0), run_tuner(c, 1)]
+        except (Exception, U.Hang) as e:
+            ctx.violation("property", "Tuner run with MOASHA raised %s: %s" % (type(e).__name__, str(e)[:200]), case=c,
+                          signature=dict(scheduler="Tuner+MOASHA", defect="raises_" + type(e).__name__))
+            continue
+        ctx.count(("tuner", c), nontrivial=len(set(m for m, f in zip(c["base_modes"], c["mask"]))) >= 1)
+        ctx.h("unit_kind", "tuner_best_config")
+        for (q0, b0, ref0), (q1, b1, ref1) in zip(outs[0], outs[1]):
+            if b0 != b1 or b0 != ref0:
+                ctx.violation("property", "Tuner.best_config(metric=%r): trial %r with modes %r, trial %r in the mirrored experiment "
+                              "(modes %r on the negated metrics %r); the best recorded value belongs to trial %r" % (
+                                  q0, b0, c["base_modes"], b1, moasha_modes(c, 1),
+                                  [i for i, f in enumerate(c["mask"]) if f], ref0), case=c,
+                              signature=dict(function="Tuner.best_config", defect="mode_asymmetry"))
+                break
+
+
+def run_tuner(c, variant):
+    """A short REAL Tuner run (in-memory backend, no sleeping) with MOASHA; returns for every metric, queried by index
+    and by name, (query, best trial according to Tuner.best_config, best trial according to the recorded values)."""
+    import os
+    import shutil
+    import tempfile
+    old = os.environ.get("SYNETUNE_FOLDER")
+    root = tempfile.mkdtemp(prefix="c15-synetune-")
+    os.environ["SYNETUNE_FOLDER"] = root
+    try:
+        from syne_tune import Tuner
+        from syne_tune.backend.trial_backend import TrialBackend
+        from syne_tune.backend.trial_status import Status
+        from pathlib import Path
+        spec = dict(c, sched="moasha")
+        recorded = []
+
+        class MemBackend(TrialBackend):
+            """in-memory workers: every poll each running trial reports its next epoch; completed at max_t"""
+
+            def __init__(self):
+                super().__init__()
+                self.stamp = 0.0
+
+            def _schedule(self, trial_id, config):
+                pass
+
+            def _all_trial_results(self, trial_ids):
+                out = []
+                for tid in trial_ids:
+                    tr = self._trial_dict[tid]
+                    if tr.status == Status.in_progress:
+                        r = len(tr.metrics) + 1
+                        rep = result_of(spec, variant, {}, tid, r)
+                        self.stamp += 1.0
+                        rep["st_worker_timestamp"] = self.stamp
+                        tr.metrics.append(rep)
+                        recorded.append((tid, rep))
+                        if r >= spec["max_t"]:
+                            tr.status = Status.completed
+                    out.append(tr)
+                return out
+
+            def _pause_trial(self, trial_id, result):
+                pass
+
+            def _resume_trial(self, trial_id):
+                pass
+
+            def _stop_trial(self, trial_id, result):
+                self._trial_dict[trial_id].status = Status.stopped
+
+            def busy_trial_ids(self):
+                return [(t, tr.status) for t, tr in self._trial_dict.items() if tr.status == Status.in_progress]
+
+            def stdout(self, trial_id):
+                return []
+
+            def stderr(self, trial_id):
+                return []
+
+            def copy_checkpoint(self, src_trial_id, tgt_trial_id):
+                pass
+
+            def delete_checkpoint(self, trial_id):
+                pass
+
+            def entrypoint_path(self):
+                return Path("in_memory_worker.py")
+
+            def set_entrypoint(self, entry_point):
+                pass
+
+        sch = build_scheduler(spec, variant)
+        n = c["max_results"]
+        sink = io.StringIO()
+        with contextlib.redirect_stdout(sink):
+            tuner = Tuner(trial_backend=MemBackend(), scheduler=sch,
+                          stop_criterion=lambda status: status.overall_metric_statistics.count >= n,
+                          n_workers=c["n_workers"], sleep_time=0, print_update_interval=1e9, max_failures=1000,
+                          tuner_name="c15pair", suffix_tuner_name=False, save_tuner=False, callbacks=[])
+            tuner.run()
+            names = ["m%d" % i for i in range(c["nmet"])]
+            modes = moasha_modes(c, variant)
+            out = []
+            # only results the tuner has seen count (the last poll may be cut by the stop criterion): use its status
+            seen = tuner.tuning_status.trial_metric_statistics
+            for i, name in enumerate(names):
+                md = modes if isinstance(modes, str) else modes[i]
+                stat = {t: (st.min_metrics if md == "min" else st.max_metrics).get(name) for t, st in seen.items()}
+                stat = {t: v for t, v in stat.items() if v is not None}
+                ref = (min if md == "min" else max)(stat, key=lambda t: stat[t]) if stat else None
+                for query in (i, name):
+                    if i == 0 and query == 0:
+                        pass
+                    out.append((query, int(tuner.best_config(metric=query)[0]), None if ref is None else int(ref)))
+        return out
+    finally:
+        shutil.rmtree(root, ignore_errors=True)
+        if old is None:
+            os.environ.pop("SYNETUNE_FOLDER", None)
+        else:
+            os.environ["SYNETUNE_FOLDER"] = old
+
+
 def run(ctx, replay=None):
     ctx.rule = ("cases: (a) pairs of whole runs of a real scheduler (HyperbandScheduler stopping / promotion / pasha / "
                 "rush_stopping / rush_promotion, SynchronousGeometricHyperbandScheduler, "
@@ -1081,6 +1279,7 @@ def run(ctx, replay=None):
     ctx.violation = capped
     unit_cases(ctx, replay)
     unit_cases2(ctx, replay)
+    unit_cases3(ctx, replay)
     if replay is None:
         n_each = ctx.n(90, 700)
         specs = [(gen_pair_spec(rng, kind), None) for kind in KINDS for _ in range(n_each)]
